@@ -60,7 +60,7 @@ claim("C13",
       "read from go/types, caller-established guards via an SSA struct-fact analysis, audited ArgUse arms), implicit partial operations (single-value type assertions, Object.Pkg() nil contract, strings.Repeat counts, "
       "MustCompile arguments, constant indexes vs. length facts, nil-map stores), error discipline (no success return reachable while an error may be non-nil), recursion cycles of the VTA call graph (visited set when "
       "named types are unfolded), unbounded loops and the monotonicity of the generator's Dirty fix-point. Decides that no input can drive own code into these panics/hangs; tests sample inputs, this covers all paths.",
-      "Not decided: termination in general, panics inside go/packages/jennifer/regexp, OOM, wording of diagnostics. Nil-dereference of conditionally initialised locals (D6 class) is not covered by a rule. "
+      "Not decided: termination in general, panics inside go/packages/jennifer/regexp, OOM, wording of diagnostics. "
       "Trusted: audited tables in checker/c13*.go (switch exclusions, audited panics/asserts/lengths/error drops/loops), go/ssa.",
       "static analysis: switch exhaustiveness vs. type-checked universes, SSA dominance/path search (error flow, struct facts, clamps), VTA call-graph SCCs")
 
